@@ -245,3 +245,13 @@ func Start(f func()) <-chan Result {
 
 // Run runs f on a new goroutine and waits for it.
 func Run(f func()) Result { return <-Start(f) }
+
+// RunTree is Run, and additionally turns an abort on a goroutine created directly by f's
+// goroutine into the result (the tool often aborts on helper goroutines it starts itself).
+func RunTree(f func()) Result {
+	r := Run(f)
+	if ab := Cap.TakeAbortsOf(func(a Abort) bool { return a.Parent == r.Gid }); len(ab) > 0 && r.Completed {
+		r.Completed, r.Aborted, r.AbortMsg = false, true, ab[0].Msg
+	}
+	return r
+}
